@@ -691,6 +691,11 @@ fn run() {
                     let n: usize = op[1].parse().unwrap();
                     let w: usize = op[2].parse().unwrap();
                     let bs: Vec<usize> = (0..n).collect();
+                    // the real constructor refuses a dataset without any Item (market_data.rs:62-70)
+                    if std::panic::catch_unwind(|| MarketDataInMemory::new(Arc::clone(&s.events))).is_err() {
+                        lines.push("panic".into());
+                        continue;
+                    }
                     let conc = run_concurrent(s, &bs, w);
                     for b in 0..n {
                         let sink = &conc.sinks[b];
@@ -751,13 +756,33 @@ fn gen_case(out: &mut Out, rng: &mut Rng, id: &str, len: usize, runs: &[(usize, 
     let k = rng.range(1, 3) as usize;
     // few distinct prices per instrument, so that requests collide on price
     let base: Vec<i64> = (0..k).map(|j| 50 + 50 * j as i64).collect();
-    let mut line = format!("data {k}");
-    for _ in 0..len {
+    // `len` Items; Reconnecting markers: in half of the cases 1-3 at the very beginning (before the
+    // first Item, whose timestamp initialises the clock), in a third some in the middle, in a third
+    // 1-2 at the very end
+    let mut toks: Vec<String> = Vec::new();
+    if rng.chance(50) {
+        for _ in 0..rng.range(1, 3) {
+            toks.push("R".into());
+        }
+    }
+    let mid_pct = if rng.chance(33) { *rng.pick(&[2u64, 10, 30]) } else { 0 };
+    for pos in 0..len {
         let i = rng.below(k as u64) as usize;
         let p = base[i] + rng.range(0, 3);
-        line.push_str(&format!(" {i}:{p}"));
+        toks.push(format!("{i}:{p}"));
+        if pos + 1 < len && mid_pct > 0 && rng.chance(mid_pct) {
+            toks.push("R".into());
+            if rng.chance(20) {
+                toks.push("R".into());
+            }
+        }
     }
-    out.line(line);
+    if rng.chance(33) {
+        for _ in 0..rng.range(1, 2) {
+            toks.push("R".into());
+        }
+    }
+    out.line(format!("data {k} {}", toks.join(" ")));
     let n_strats = rng.range(1, 3);
     for s in 0..n_strats {
         // the first parameterisation of every other case is passive (the repo's own example)
@@ -768,7 +793,8 @@ fn gen_case(out: &mut Out, rng: &mut Rng, id: &str, len: usize, runs: &[(usize, 
         let items = rng.range(1, 4);
         let mut line = String::from("strat");
         for _ in 0..items {
-            // triggers collide, sit at the very start, in the middle and on the last event
+            // triggers (count of Items processed) collide, sit at the very start, in the middle and
+            // on the last Item
             let trigger = match rng.below(4) {
                 0 => 1,
                 1 => len as i64,
